@@ -151,6 +151,20 @@ func doCall(t *template.Template, c call) (res string) {
 	case "roottohtml":
 		h, err := t.ExecuteToHTML(data[c.Data])
 		return fmtErr(h.String(), err)
+	case "parsefiles":
+		_, err := t.ParseFiles("fixtures/hist/a.tmpl", "fixtures/hist/b.tmpl")
+		return fmtErr("parsed", err)
+	case "parse":
+		_, err := t.ParseFromTrustedTemplate(tuc.TrustedTemplateFromStringKnownToSatisfyTypeContract(`{{define "a"}}<i>{{.S}}</i>{{end}}`))
+		return fmtErr("parsed", err)
+	case "clone":
+		c, err := t.Clone()
+		if err != nil {
+			return "clone ERR"
+		}
+		var w bytes.Buffer
+		err = c.ExecuteTemplate(&w, "a", data[0])
+		return fmtErr("clone:"+w.String(), err)
 	case "lookup":
 		if t.Lookup(c.Name) == nil {
 			return "nil"
